@@ -11,5 +11,6 @@ CONSTANTS
   Seeds = {1, 2, 3, 4, 5, 6, 7, 8, 9, 10, 11, 12, 13, 14, 15, 16, 17, 18, 19, 20}
   StartSlots = {0, 1, 2, 3, 4, 5}
   MaxHeads = 2
+  Directed = FALSE
 INVARIANTS Emit
 CHECK_DEADLOCK FALSE
